@@ -1,11 +1,12 @@
 #!/bin/bash
-# usage: sweep_mutants.sh [tier]  -- for every /verif/seeded/<Cxx_y>: apply to /repo, run the check of Cxx, revert; writes seeded/SWEEP.txt
+# usage: [ONLY="C09_l C16_l"] sweep_mutants.sh [tier]  -- for every (or, with ONLY, for the named, appending to SWEEP.txt) /verif/seeded/<Cxx_y>: apply to /repo, run the check of Cxx, revert; writes seeded/SWEEP.txt
 tier=${1:-quick}
-out=/verif/seeded/SWEEP.txt; : > $out
+out=/verif/seeded/SWEEP.txt; [ -n "$ONLY" ] || : > $out
 cd /repo && git diff --quiet || { echo "/repo working tree is not clean"; exit 3; }
 saved=$(mktemp -d); cp /verif/evidence/*.json $saved/   # evidence must describe runs on the unchanged tree only
 for d in /verif/seeded/*/; do
   n=$(basename $d); p=${n%%_*}
+  if [ -n "$ONLY" ]; then case " $ONLY " in *" $n "*) ;; *) continue;; esac; fi
   cd /repo && git apply $d/patch.diff || { echo "$n PATCH-DOES-NOT-APPLY" >> $out; continue; }
   cd /verif; s=$(date +%s); res=$(bin/check $p --tier $tier 2>&1); rc=$?; e=$(date +%s)
   git -C /repo checkout -- .
